@@ -3,6 +3,10 @@ import string
 import logging
 from bisect import bisect
 from ast import Name as AstName, Attribute, Call, FunctionDef, ClassDef, Lambda
+try:
+    from ast import AsyncFunctionDef
+except ImportError:
+    AsyncFunctionDef = FunctionDef  # type: ignore[misc, assignment]
 
 from .util import (Location, np, insert_loc, cached_property,
                    get_indexes_for_target, context_property)
@@ -317,7 +321,7 @@ def get_first_body_node_loc(body):
     if not body:
         return None
 
-    if type(body[0]) in (FunctionDef, ClassDef) and body[0].decorator_list:  # type: ignore[attr-defined]
+    if type(body[0]) in (FunctionDef, AsyncFunctionDef, ClassDef) and body[0].decorator_list:  # type: ignore[attr-defined]
         return body[0].decorator_list[0].lineno, body[0].col_offset  # type: ignore[attr-defined]
 
     for n in body:
